@@ -25,8 +25,8 @@ use crossbeam_channel::{unbounded, Receiver, Sender};
 use serde_json::json;
 use std::cell::{Cell, RefCell};
 use std::collections::BTreeSet;
-use std::sync::atomic::{AtomicBool, Ordering};
-use std::sync::{Arc, Condvar, Mutex, MutexGuard};
+use std::sync::atomic::{AtomicBool, AtomicUsize, Ordering};
+use std::sync::{Arc, Condvar, Mutex, MutexGuard, Weak};
 use std::time::Duration;
 use umharness::util::*;
 use undermoon::common::verif_hook::set_point_hook;
@@ -34,7 +34,8 @@ use undermoon::protocol::{Resp, RespVec};
 use undermoon::proxy::backend::{CmdTask, SenderBackendError};
 use undermoon::proxy::blocking::{
     BlockingCmdTaskSender, BlockingHandle, BlockingHint, BlockingHintTask, BlockingMap,
-    CounterTask, TaskBlockingController, TaskBlockingQueue, TaskBlockingQueueSender,
+    CounterTask, TaskBlockingController, TaskBlockingControllerFactory, TaskBlockingQueue,
+    TaskBlockingQueueSender,
     TaskBlockingQueueSenderFactory,
 };
 use undermoon::proxy::command::{CommandError, CommandResult};
@@ -170,6 +171,9 @@ impl Hint {
 struct Config {
     senders: Vec<(Hint, bool)>,
     ctrls: Vec<Vec<char>>, // programs over S P D R
+    /// the backend address was used and completely released before this case obtains its sender
+    /// and controller from the `BlockingMap` (the map entry holds a dead `Weak`)
+    reuse: bool,
 }
 
 impl Config {
@@ -192,7 +196,7 @@ impl Config {
                 .collect::<Vec<_>>()
                 .join(",")
         };
-        format!("init {} {}", ss, cs)
+        format!("init {} {}{}", ss, cs, if self.reuse { " r" } else { "" })
     }
     fn parse(line: &str) -> Option<Config> {
         let mut it = line.split(' ');
@@ -201,6 +205,11 @@ impl Config {
         }
         let ss = it.next()?;
         let cs = it.next()?;
+        let reuse = match it.next() {
+            None => false,
+            Some("r") => true,
+            Some(_) => return None,
+        };
         let mut senders = vec![];
         if ss != "-" {
             for item in ss.split(',') {
@@ -227,7 +236,7 @@ impl Config {
                 }
             }
         }
-        Some(Config { senders, ctrls })
+        Some(Config { senders, ctrls, reuse })
     }
     fn nthreads(&self) -> usize {
         self.senders.len() + self.ctrls.len()
@@ -628,8 +637,16 @@ fn run_case(cfg: &Config, chooser: Chooser) -> CaseOut {
         Arc::new(RecRedisp(rec.clone())),
     ));
     let factory = TaskBlockingQueueSenderFactory::new(map.clone());
+    if cfg.reuse {
+        // earlier life of the address: client path and migration path held the queue, all gone
+        let s0 = factory.create("backend".to_string());
+        let c0 = TaskBlockingControllerFactory::create(&*map, "backend".to_string());
+        drop(s0);
+        drop(c0);
+    }
+    // client path and migration path, as the proxy obtains them
     let sender: Arc<QSender> = Arc::new(factory.create("backend".to_string()));
-    let queue: Arc<Queue> = map.get_blocking_queue("backend".to_string());
+    let queue: Arc<Queue> = TaskBlockingControllerFactory::create(&*map, "backend".to_string());
     let mut gate_tx = vec![];
     let mut gate_rx = vec![];
     for _ in 0..n {
@@ -892,6 +909,433 @@ fn run_case(cfg: &Config, chooser: Chooser) -> CaseOut {
 }
 
 // ---------------------------------------------------------------------------------------------
+// map family: histories over ONE `BlockingMap` (which queue does a user of an address get?)
+// ---------------------------------------------------------------------------------------------
+
+#[derive(Clone, Debug, PartialEq)]
+enum MEv {
+    Handed(usize, usize), // (queue id, task)
+    Redisp(usize),
+}
+
+struct MRec {
+    events: Mutex<Vec<MEv>>,
+    created: AtomicUsize,
+}
+
+/// inner sender of queue number `qid` (= the `qid`-th call of `sender_factory.create`)
+struct MInner {
+    qid: usize,
+    rec: Arc<MRec>,
+}
+
+impl CmdTaskSender for MInner {
+    type Task = CounterTask<HTask>;
+    fn send(&self, t: Self::Task) -> Result<(), SenderBackendError<Self::Task>> {
+        let id = t.get_slot().unwrap_or(usize::MAX);
+        self.rec.events.lock().expect("events").push(MEv::Handed(self.qid, id));
+        Ok(()) // the reply arrives at once: the CounterTask is dropped here
+    }
+}
+
+struct MFactory(Arc<MRec>);
+
+impl CmdTaskSenderFactory for MFactory {
+    type Sender = MInner;
+    fn create(&self, _address: String) -> MInner {
+        MInner { qid: self.0.created.fetch_add(1, Ordering::SeqCst), rec: self.0.clone() }
+    }
+}
+
+struct MRedisp(Arc<MRec>);
+
+impl CmdTaskSender for MRedisp {
+    type Task = HTask;
+    fn send(&self, t: HTask) -> Result<(), SenderBackendError<HTask>> {
+        self.0.events.lock().expect("events").push(MEv::Redisp(t.id));
+        Ok(())
+    }
+}
+
+impl BlockingCmdTaskSender for MRedisp {}
+
+type MQueue = TaskBlockingQueue<MInner, MRedisp>;
+type MSender = TaskBlockingQueueSender<MInner, MRedisp>;
+
+enum MHold {
+    Sender(MSender),
+    Ctrl(Arc<MQueue>),
+}
+
+struct MHolder {
+    addr: usize,
+    hold: Option<MHold>, // None = dropped
+}
+
+struct MapCase {
+    rec: Arc<MRec>,
+    map: Arc<BlockingMap<MFactory, MRedisp>>,
+    factory: TaskBlockingQueueSenderFactory<MFactory, MRedisp>,
+    holders: Vec<MHolder>,
+    /// queues seen through an `Arc` holder (a `Weak` keeps the allocation: no address reuse)
+    known: Vec<(Weak<MQueue>, usize)>,
+    next_task: usize,
+    failures: Vec<(String, &'static str)>,
+    recreated: u32,
+    used: BTreeSet<usize>,
+    probed_recreated_pair: bool,
+    recreated_addrs: BTreeSet<usize>,
+}
+
+fn addr_name(a: usize) -> String {
+    format!("addr{}", a)
+}
+
+impl MapCase {
+    fn new() -> MapCase {
+        let rec = Arc::new(MRec { events: Mutex::new(vec![]), created: AtomicUsize::new(0) });
+        let map = Arc::new(BlockingMap::new(MFactory(rec.clone()), Arc::new(MRedisp(rec.clone()))));
+        let factory = TaskBlockingQueueSenderFactory::new(map.clone());
+        MapCase {
+            rec,
+            map,
+            factory,
+            holders: vec![],
+            known: vec![],
+            next_task: 1000,
+            failures: vec![],
+            recreated: 0,
+            used: BTreeSet::new(),
+            probed_recreated_pair: false,
+            recreated_addrs: BTreeSet::new(),
+        }
+    }
+
+    fn take_events(&self) -> Vec<MEv> {
+        std::mem::take(&mut *self.rec.events.lock().expect("events"))
+    }
+
+    /// send one NotBlocking command through a sender holder: Some(queue id) if it was handed to
+    /// the backend sender (of that queue), None if it was queued
+    fn send_probe(&mut self, h: usize) -> Option<usize> {
+        let id = self.next_task;
+        self.next_task += 1;
+        let _ = self.take_events();
+        if let Some(MHolder { hold: Some(MHold::Sender(s)), .. }) = self.holders.get(h) {
+            let _ = s.send(BlockingHintTask::new(HTask { id }, BlockingHint::NotBlocking));
+        }
+        self.take_events().iter().find_map(|e| match e {
+            MEv::Handed(q, t) if *t == id => Some(*q),
+            _ => None,
+        })
+    }
+
+    fn live(&self, a: usize, want_sender: bool) -> Vec<usize> {
+        (0..self.holders.len())
+            .filter(|h| {
+                self.holders[*h].addr == a
+                    && match &self.holders[*h].hold {
+                        Some(MHold::Sender(_)) => want_sender,
+                        Some(MHold::Ctrl(_)) => !want_sender,
+                        None => false,
+                    }
+            })
+            .collect()
+    }
+
+    fn ctrl_arc(&self, h: usize) -> Option<Arc<MQueue>> {
+        match self.holders.get(h) {
+            Some(MHolder { hold: Some(MHold::Ctrl(q)), .. }) => Some(q.clone()),
+            _ => None,
+        }
+    }
+
+    /// controller `c` starts blocking; every sender in `ss` sends a command; returns, per sender,
+    /// whether the command was queued (and then re-dispatched exactly once at the drop of the
+    /// handle).  Barrier oracle: nothing may be handed between blocking_done() = true and the drop.
+    fn block_and_send(&mut self, c: usize, ss: &[usize], a: usize) -> Vec<(usize, bool)> {
+        let q = match self.ctrl_arc(c) {
+            Some(q) => q,
+            None => return vec![],
+        };
+        let handle = q.start_blocking();
+        let done = q.blocking_done();
+        let mut out = vec![];
+        let mut queued_tasks = vec![];
+        for s in ss {
+            let first_task = self.next_task;
+            let handed = self.send_probe(*s);
+            out.push((*s, handed.is_none()));
+            match handed {
+                Some(qid) => {
+                    if done {
+                        self.failures.push((
+                            format!("map/barrier: address {}: a command sent through sender h{} was handed to the backend (queue {}) between blocking_done() = true of controller h{} and the drop of its BlockingHandle: the two sides of the address use different blocking queues", a, s, qid, c),
+                            "",
+                        ));
+                    }
+                }
+                None => queued_tasks.push(first_task),
+            }
+        }
+        drop(handle);
+        let evs = self.take_events();
+        for t in queued_tasks {
+            let n = evs.iter().filter(|e| **e == MEv::Redisp(t)).count();
+            if n != 1 {
+                self.failures.push((
+                    format!("map/no-loss: address {}: a command queued while controller h{} blocked was re-dispatched {} time(s) when the handle was dropped", a, c, n),
+                    "",
+                ));
+            }
+        }
+        if q.get_blocking_state().blocking || !q.blocking_done() {
+            self.failures.push((format!("map: address {}: queue not idle after the probe", a), ""));
+        }
+        out
+    }
+
+    /// queue id of a freshly acquired holder, as far as the implementation shows it
+    fn identify(&mut self, h: usize, created_now: Option<usize>) -> String {
+        let a = self.holders[h].addr;
+        let is_sender = matches!(self.holders[h].hold, Some(MHold::Sender(_)));
+        if is_sender {
+            return match self.send_probe(h) {
+                Some(q) => format!("q{}", q),
+                None => "q?".to_string(),
+            };
+        }
+        let arc = match self.ctrl_arc(h) {
+            Some(q) => q,
+            None => return "q?".to_string(),
+        };
+        if let Some(q) = created_now {
+            self.known.push((Arc::downgrade(&arc), q));
+            return format!("q{}", q);
+        }
+        for (w, q) in &self.known {
+            if let Some(x) = w.upgrade() {
+                if Arc::ptr_eq(&x, &arc) {
+                    return format!("q{}", q);
+                }
+            }
+        }
+        // the queue is only known through senders so far: block it and see which sender is blocked
+        let ss = self.live(a, true);
+        let mut by_q: Vec<(usize, usize)> = vec![]; // (queue id, representative sender)
+        for s in ss {
+            if let Some(q) = self.send_probe(s) {
+                if !by_q.iter().any(|x| x.0 == q) {
+                    by_q.push((q, s));
+                }
+            }
+        }
+        let reps: Vec<usize> = by_q.iter().map(|x| x.1).collect();
+        let res = self.block_and_send(h, &reps, a);
+        for (s, queued) in res {
+            if queued {
+                if let Some((q, _)) = by_q.iter().find(|x| x.1 == s) {
+                    self.known.push((Arc::downgrade(&arc), *q));
+                    return format!("q{}", q);
+                }
+            }
+        }
+        "q?".to_string()
+    }
+
+    /// the oracle after every op: all live holders of one address share one queue; different
+    /// addresses do not
+    fn check_address(&mut self, a: usize) {
+        let cs = self.live(a, false);
+        let ss = self.live(a, true);
+        for w in cs.windows(2) {
+            if let (Some(x), Some(y)) = (self.ctrl_arc(w[0]), self.ctrl_arc(w[1])) {
+                if !Arc::ptr_eq(&x, &y) {
+                    self.failures.push((
+                        format!("map: address {}: controller holders h{} and h{} are different queues", a, w[0], w[1]),
+                        "",
+                    ));
+                }
+            }
+        }
+        let mut sq: Vec<(usize, Option<usize>)> = vec![];
+        for s in &ss {
+            let q = self.send_probe(*s);
+            sq.push((*s, q));
+        }
+        for w in sq.windows(2) {
+            if w[0].1 != w[1].1 {
+                self.failures.push((
+                    format!("map: address {}: sender holders h{} and h{} hand to different queues ({:?} vs {:?})", a, w[0].0, w[1].0, w[0].1, w[1].1),
+                    "",
+                ));
+            }
+        }
+        if let Some(c) = cs.first().copied() {
+            if !ss.is_empty() {
+                let res = self.block_and_send(c, &ss, a);
+                if self.recreated_addrs.contains(&a) && res.iter().all(|x| x.1) {
+                    self.probed_recreated_pair = true;
+                }
+            }
+        }
+        // different addresses never share a queue
+        for b in self.used.clone() {
+            if b == a {
+                continue;
+            }
+            let other = self.live(b, true);
+            if let (Some(s1), Some(s2)) = (ss.first().copied(), other.first().copied()) {
+                let (q1, q2) = (self.send_probe(s1), self.send_probe(s2));
+                if q1.is_some() && q1 == q2 {
+                    self.failures.push((format!("map: addresses {} and {} share queue {:?}", a, b, q1), ""));
+                }
+            }
+        }
+    }
+
+    fn acquire(&mut self, kind: &str, a: usize) -> String {
+        let before = self.rec.created.load(Ordering::SeqCst);
+        let had_live = !self.live(a, true).is_empty() || !self.live(a, false).is_empty();
+        let hold = match kind {
+            "msender" => MHold::Sender(self.factory.create(addr_name(a))),
+            "mctrl" => MHold::Ctrl(TaskBlockingControllerFactory::create(&*self.map, addr_name(a))),
+            _ => MHold::Ctrl(self.map.get_blocking_queue(addr_name(a))),
+        };
+        let after = self.rec.created.load(Ordering::SeqCst);
+        let h = self.holders.len();
+        self.holders.push(MHolder { addr: a, hold: Some(hold) });
+        let created = if after > before { Some(before) } else { None };
+        if after > before + 1 {
+            self.failures.push((format!("map: one get_or_create({}) created {} queues", a, after - before), ""));
+        }
+        if created.is_some() && had_live {
+            self.failures.push((
+                format!("map: address {}: a new queue was created although a holder of the address is alive", a),
+                "",
+            ));
+        }
+        if created.is_some() && self.used.contains(&a) {
+            self.recreated += 1;
+            self.recreated_addrs.insert(a);
+        }
+        self.used.insert(a);
+        let q = self.identify(h, created);
+        self.check_address(a);
+        format!("h{} {} new={}", h, q, if created.is_some() { 1 } else { 0 })
+    }
+
+    fn op(&mut self, line: &str) -> String {
+        let mut it = line.split(' ');
+        let kind = it.next().unwrap_or("");
+        let arg: Option<usize> = it.next().and_then(|x| x.parse().ok());
+        match (kind, arg) {
+            ("minit", None) => "ok".to_string(),
+            ("msender", Some(a)) | ("mctrl", Some(a)) | ("mgetq", Some(a)) => self.acquire(kind, a),
+            ("mdrop", Some(h)) => {
+                let a = match self.holders.get_mut(h) {
+                    Some(x) if x.hold.is_some() => {
+                        x.hold = None;
+                        x.addr
+                    }
+                    _ => return "noop".to_string(),
+                };
+                self.check_address(a);
+                "dropped".to_string()
+            }
+            ("mdropall", Some(a)) => {
+                let mut n = 0;
+                for x in self.holders.iter_mut() {
+                    if x.addr == a && x.hold.is_some() {
+                        x.hold = None;
+                        n += 1;
+                    }
+                }
+                format!("dropped {}", n)
+            }
+            ("mprobe", Some(a)) => {
+                let cs = self.live(a, false);
+                let ss = self.live(a, true);
+                match cs.first().copied() {
+                    None => "probe none".to_string(),
+                    Some(c) => {
+                        let res = self.block_and_send(c, &ss, a);
+                        if self.recreated_addrs.contains(&a) && !res.is_empty() && res.iter().all(|x| x.1) {
+                            self.probed_recreated_pair = true;
+                        }
+                        let items: Vec<String> = res
+                            .iter()
+                            .map(|(s, queued)| format!("h{}:{}", s, if *queued { "queued" } else { "handed" }))
+                            .collect();
+                        format!("probe ctrl=h{} {}", c, if items.is_empty() { "-".to_string() } else { items.join(",") })
+                    }
+                }
+            }
+            _ => "bad-op".to_string(),
+        }
+    }
+}
+
+fn emit_map_case(s: &mut Streams, ops: &[String]) {
+    let case = s.case();
+    let mut mc = MapCase::new();
+    let mut replay = vec![];
+    for op in ops {
+        let out = match std::panic::catch_unwind(std::panic::AssertUnwindSafe(|| mc.op(op))) {
+            Ok(o) => o,
+            Err(_) => "PANIC".to_string(),
+        };
+        s.op(op, &out);
+        replay.push(op.clone());
+        s.stats.count(&format!("gen.map.op.{}", op.split(' ').next().unwrap_or("")));
+    }
+    s.stats.count("gen.map.histories");
+    s.stats.add("out.map.recreated_over_dead_entry", mc.recreated as u64);
+    if mc.probed_recreated_pair {
+        s.stats.count("out.map.recreated_pair_blocked_together");
+        s.stats.nontrivial_case(&replay.join(";"));
+    }
+    let mut seen = BTreeSet::new();
+    for (what, finding) in std::mem::take(&mut mc.failures) {
+        if seen.insert(what.clone()) {
+            s.stats.oracle_failure(case, &what, finding, replay.clone());
+        }
+    }
+}
+
+fn gen_map_history(rng: &mut Rng) -> Vec<String> {
+    let naddr = 1 + rng.below(3) as usize;
+    let n = 6 + rng.below(20) as usize;
+    let mut ops = vec!["minit".to_string()];
+    let mut holders = 0usize;
+    for _ in 0..n {
+        let a = rng.below(naddr as u64) as usize;
+        let op = match rng.below(20) {
+            0..=4 => format!("msender {}", a),
+            5..=7 => format!("mctrl {}", a),
+            8..=9 => format!("mgetq {}", a),
+            10..=12 if holders > 0 => format!("mdrop {}", rng.below(holders as u64)),
+            13..=16 => format!("mdropall {}", a),
+            _ => format!("mprobe {}", a),
+        };
+        if op.starts_with("msender") || op.starts_with("mctrl") || op.starts_with("mgetq") {
+            holders += 1;
+        }
+        // the interesting history: everything released, then the pair comes back
+        if op.starts_with("mdropall") && rng.chance(2, 3) {
+            ops.push(op);
+            ops.push(format!("msender {}", a));
+            ops.push(format!("mctrl {}", a));
+            holders += 2;
+            ops.push(format!("mprobe {}", a));
+            continue;
+        }
+        ops.push(op);
+    }
+    ops
+}
+
+// ---------------------------------------------------------------------------------------------
 // independence relation for the sleep-set DFS
 // ---------------------------------------------------------------------------------------------
 
@@ -1141,12 +1585,21 @@ fn gen_config(rng: &mut Rng, st: &mut Stats) -> Config {
         };
         ctrls.push(p);
     }
-    Config { senders, ctrls }
+    let reuse = rng.chance(1, 2);
+    if reuse {
+        st.count("gen.reused_address");
+    }
+    Config { senders, ctrls, reuse }
+}
+
+enum ReplayCase {
+    Sched(Config, Vec<usize>),
+    Map(Vec<String>),
 }
 
 fn replay_file(s: &mut Streams, path: &std::path::Path) {
-    let mut cur: Option<(Config, Vec<usize>)> = None;
-    let mut cases: Vec<(Config, Vec<usize>)> = vec![];
+    let mut cur: Option<ReplayCase> = None;
+    let mut cases: Vec<ReplayCase> = vec![];
     for l in read_lines(path) {
         if l.starts_with('#') || l.starts_with("case ") {
             continue;
@@ -1156,46 +1609,59 @@ fn replay_file(s: &mut Streams, path: &std::path::Path) {
                 cases.push(c);
             }
             match Config::parse(&l) {
-                Some(c) => cur = Some((c, vec![])),
+                Some(c) => cur = Some(ReplayCase::Sched(c, vec![])),
                 None => harness_failure(&format!("replay: bad init line: {}", l)),
             }
+            continue;
+        }
+        if l == "minit" {
+            if let Some(c) = cur.take() {
+                cases.push(c);
+            }
+            cur = Some(ReplayCase::Map(vec![l]));
             continue;
         }
         let mut it = l.split(' ');
         let kind = it.next().unwrap_or("");
         let idx: Option<usize> = it.next().and_then(|x| x.parse().ok());
         match (&mut cur, kind, idx) {
-            (Some((c, steps)), "s", Some(i)) if i < c.senders.len() => steps.push(i),
-            (Some((c, steps)), "c", Some(j)) if j < c.ctrls.len() => steps.push(c.senders.len() + j),
+            (Some(ReplayCase::Sched(c, steps)), "s", Some(i)) if i < c.senders.len() => steps.push(i),
+            (Some(ReplayCase::Sched(c, steps)), "c", Some(j)) if j < c.ctrls.len() => steps.push(c.senders.len() + j),
+            (Some(ReplayCase::Map(ops)), k, Some(_)) if k.starts_with('m') => ops.push(l.clone()),
             _ => harness_failure(&format!("replay: bad line: {}", l)),
         }
     }
     if let Some(c) = cur.take() {
         cases.push(c);
     }
-    for (cfg, steps) in cases {
+    for case in cases {
         s.stats.count("gen.replay");
-        let mut i = 0usize;
-        emit_case(
-            s,
-            &cfg,
-            Box::new(move |_, en| {
-                // follow the file while it names an enabled thread, then lowest thread first
-                while i < steps.len() {
-                    let t = steps[i];
-                    i += 1;
-                    if en.contains(&t) {
-                        return Some(t);
-                    }
-                }
-                en.first().copied()
-            }),
-        );
+        match case {
+            ReplayCase::Map(ops) => emit_map_case(s, &ops),
+            ReplayCase::Sched(cfg, steps) => {
+                let mut i = 0usize;
+                emit_case(
+                    s,
+                    &cfg,
+                    Box::new(move |_, en| {
+                        // follow the file while it names an enabled thread, then lowest thread first
+                        while i < steps.len() {
+                            let t = steps[i];
+                            i += 1;
+                            if en.contains(&t) {
+                                return Some(t);
+                            }
+                        }
+                        en.first().copied()
+                    }),
+                );
+            }
+        }
     }
 }
 
 fn cfg(senders: &[(Hint, bool)], ctrls: &[&str]) -> Config {
-    Config { senders: senders.to_vec(), ctrls: ctrls.iter().map(|p| p.chars().collect()).collect() }
+    Config { senders: senders.to_vec(), ctrls: ctrls.iter().map(|p| p.chars().collect()).collect(), reuse: false }
 }
 
 /// (configuration, cap on the number of executions).  The caps of the first group are far above
@@ -1280,11 +1746,15 @@ fn main() {
             let cfg = gen_config(&mut rng, &mut s.stats);
             random_case(&mut s, &cfg, &mut rng);
         }
+        for _ in 0..20000 {
+            let ops = gen_map_history(&mut rng);
+            emit_map_case(&mut s, &ops);
+        }
     } else {
         // tiny exhaustive searches + seeded random schedules
         for (cfg, cap) in [
-            (Config { senders: vec![(Hint::N, true)], ctrls: vec!["SPD".chars().collect()] }, 400u64),
-            (Config { senders: vec![(Hint::M(0), true)], ctrls: vec!["SD".chars().collect()] }, 400),
+            (cfg(&[(Hint::N, true)], &["SPD"]), 400u64),
+            (Config { reuse: true, ..cfg(&[(Hint::M(0), true)], &["SD"]) }, 400),
         ] {
             let (_, complete) = dfs(&mut s, &cfg, cap);
             s.stats.count(if complete { "dfs.config_exhausted" } else { "dfs.config_capped" });
@@ -1293,10 +1763,14 @@ fn main() {
             let cfg = gen_config(&mut rng, &mut s.stats);
             random_case(&mut s, &cfg, &mut rng);
         }
+        for _ in 0..400 {
+            let ops = gen_map_history(&mut rng);
+            emit_map_case(&mut s, &ops);
+        }
     }
     set_point_hook(None);
     s.finish(
         "barrier",
-        "cases = complete schedules of the real TaskBlockingQueue (one op line per atomic step); configurations: k in 1..3 senders x hints N/B/M(term) x inner sender ok/retry x 0..2 controller programs over start/poll/drop/stop; schedules: DFS with sleep sets (exhaustive for the listed small configurations) + uniform / sticky / controller-first random; non-trivial = a sender ran while the barrier was observed closed (blocking_done && blocking) or a queued task was re-dispatched; distinct = distinct (configuration, schedule)",
+        "cases = complete schedules of the real TaskBlockingQueue (one op line per atomic step); configurations: k in 1..3 senders x hints N/B/M(term) x inner sender ok/retry x 0..2 controller programs over start/poll/drop/stop x (fresh | re-used after complete release) backend address; schedules: DFS with sleep sets (exhaustive for the listed small configurations) + uniform / sticky / controller-first random; non-trivial = a sender ran while the barrier was observed closed (blocking_done && blocking) or a queued task was re-dispatched; distinct = distinct (configuration, schedule); map family: random histories of acquire (sender factory / controller factory / get_blocking_queue) / drop / drop-all / probe over one BlockingMap and 1..3 addresses, non-trivial = a pair re-created over a dead map entry was blocked together",
     );
 }
